@@ -20,7 +20,8 @@ def C05():
     from units import gen
     parts = [ProofPart(uf, 'UF(eqlog-runtime)', {'which': 0}, native=uf_native(0)),
              ProofPart(uf, 'UF(eqlog)', {'which': 1}, native=uf_native(1)),
-             ProofPart(gen, 'GEN', native=gen_native())]
+             ProofPart(gen, 'GEN', native=gen_native()),
+             ProofPart(gen, 'GEN-define', {'part': 'define'})]
     return {
         'level': 'proof', 'parts': parts,
         'samples': uf.SAMPLES,
